@@ -98,10 +98,13 @@ class SignalBuffer:
             # Index of buffered range
             slb = self.get_samples_lb()
             sub = self.get_samples_ub()
-            lpadding = max(slb-ilb, 0)
-            elb = max(slb, ilb)
-            rpadding = max(iub-sub, 0)
-            eub = min(sub, iub)
+            # Clip the requested range to the buffered range. A request that
+            # lies entirely outside the buffered range yields no data and is
+            # padded on one side only, by the length of the request.
+            lpadding = min(max(slb-ilb, 0), iub-ilb)
+            elb = min(max(slb, ilb), sub)
+            rpadding = min(max(iub-sub, 0), iub-ilb)
+            eub = min(max(slb, iub), sub)
             data = self.get_range_samples(elb, eub)
 
             padding = (lpadding, rpadding)
